@@ -261,7 +261,7 @@ func (eng *Engine) indexCallSigs() {
 	for _, f := range eng.funcs {
 		visit(f)
 	}
-	eng.callSigs["select.case"] = &callSig{names: []string{"index"}, types: []types.Type{types.Typ[types.Int]}}
+	eng.callSigs["select.case"] = &callSig{names: []string{"index", "ch"}, types: []types.Type{types.Typ[types.Int], types.Typ[types.Int]}}
 }
 
 func (eng *Engine) inRepo(fn *ssa.Function) bool {
